@@ -1,6 +1,8 @@
 import LWV.Model.Tables
 import LWV.Spec.Ieee
 import LWV.Model.Epoch
+import LWV.Model.Describe
+import LWV.Spec.Security
 /-
 Line-protocol driver: runs the executable Model (and Spec) on the same operation lines the C
 harness runs.  Compiled as `lwdriver` (nothing below imports Mathlib).
@@ -19,6 +21,46 @@ def specKinds : List (String × List (Name × Int)) := [
 def dumpTable (t : List (Name × Int)) : String :=
   " ".intercalate (t.map fun (n, v) => s!"{Name.toString n}={v}")
 
+def routineOf : Nat → Option Model.Routine
+  | 0 => some .securityType | 1 => some .groupCiphers | 2 => some .pairwiseCiphers | 3 => some .authKeySuites
+  | _ => none
+
+def parseNat (s : String) : Option Nat :=
+  if s.startsWith "0x" then
+    (s.drop 2).foldl (fun acc c => acc.bind fun a =>
+      if c.isDigit then some (a * 16 + (c.toNat - 48))
+      else if 'a' ≤ c ∧ c ≤ 'f' then some (a * 16 + (c.toNat - 87))
+      else if 'A' ≤ c ∧ c ≤ 'F' then some (a * 16 + (c.toNat - 55)) else none) (some 0)
+  else s.toNat?
+
+def textToString (t : List Nat) : String := String.ofList (t.map Char.ofNat)
+
+def fnvStep (h : UInt64) (b : UInt64) : UInt64 := (h ^^^ b) * 1099511628211
+
+def descRange (r : Model.Routine) (extra lo hi : Nat) (bits : List Nat) : String := Id.run do
+  let mut h : UInt64 := 1469598103934665603
+  let mut maxlen := 0
+  for i in [lo:hi] do
+    let mut v := extra
+    let mut j := 0
+    for b in bits do
+      if i.testBit j then v := v ||| (1 <<< b)
+      j := j + 1
+    let st := Model.describe r v
+    if st.text.length > maxlen then maxlen := st.text.length
+    for c in st.text do
+      h := fnvStep h c.toUInt64
+    h := fnvStep h 0xff
+  return s!"digest={h} maxlen={maxlen}"
+
+/-- the documented (flag bit, name) table of a routine: names from Spec, flag values from the
+published macros — independent of the behaviourally regenerated `Gen.desc_*` tables -/
+def specDescTable (r : Model.Routine) : List (Nat × Name) :=
+  let t := match r with
+    | .securityType => Spec.descGenerations | .groupCiphers => Spec.descGroup
+    | .pairwiseCiphers => Spec.descPairwise | .authKeySuites => Spec.descAkm
+  t.map fun (m, d) => (Nat.log2 ((Gen.macros.lookup m).getD 0).toNat, d)
+
 def step (line : String) : String :=
   match line.trimAscii.toString.splitOn " " with
   | ["tagname", v] =>
@@ -34,6 +76,17 @@ def step (line : String) : String :=
       let e := Model.epoch ⟨s, n⟩ % 2 ^ 64
       s!"e={e} b={e} p={e} t={e}"
     | _, _ => "bad-op"
+  | ["desc", r, v] =>
+    match r.toNat?.bind routineOf, parseNat v with
+    | some r, some v =>
+      let st := Model.describe r v
+      let sp := Spec.descText (specDescTable r) n!"None" v
+      (if st.overflow then "overflow" else s!"len={st.text.length} text={textToString st.text}") ++ s!" ;; spec={textToString sp}"
+    | _, _ => "bad-op"
+  | "descrange" :: r :: extra :: lo :: hi :: bits =>
+    match r.toNat?.bind routineOf, parseNat extra, lo.toNat?, hi.toNat? with
+    | some r, some extra, some lo, some hi => descRange r extra lo hi (bits.filterMap String.toNat?)
+    | _, _, _, _ => "bad-op"
   | ["spec-ieee", kind] =>
     match specKinds.lookup kind with
     | some t => dumpTable t
